@@ -190,7 +190,12 @@ def build_thread(interp, tid, calls, mem):
                 else:
                     n = mk("done", results=res2); branches.append((s2.pc, n.id))
             elif o[0] == "panic":
-                n = mk("panic", msg=o[2], call=callidx); branches.append((o[1].pc, n.id))
+                if isinstance(o[2], str) and o[2].startswith("ASSUMED-UNREACHABLE"):
+                    # a path the query's bounds are meant to exclude (e.g. the sleep-and-retry of a full listener queue): it is not explored
+                    # further, and the query reports it if the solver finds it reachable after all (fail closed)
+                    n = mk("cut", call=callidx, where=o[2], assumed=True); branches.append((o[1].pc, n.id))
+                else:
+                    n = mk("panic", msg=o[2], call=callidx); branches.append((o[1].pc, n.id))
         if len(branches) == 1 and z3.is_true(z3.simplify(branches[0][0])):
             return branches[0][1]
         n = mk("branch", branches=branches)
